@@ -92,6 +92,18 @@ def product_patterns(chk):
                         return O.Product(W, X) if order == "wrapped-first" else O.Product(X, W)
                     cases.append(Case(f"Product(X.{wname},X)[{order}]/dtype={d};ann={ann}", "get_annotations(Product) on X^T X patterns", build, call, ens,
                                       witness=dict(engine="ANN", pattern=f"{wname}:{order}", dtype=d, ann=list(ann))))
+        # both factors wrapped (X.H @ X.H, X.T @ X.H, ...): not a Gram pattern; whatever is reported must still be true
+        for (w1, n1), (w2, n2) in itertools.product(((O.Transpose, "T"), (O.Adjoint, "H")), repeat=2):
+            for ann in ((), ("Stiefel",)):
+                def build2(dt=dt, ann=ann):
+                    r = sym_dim("r")
+                    X = AbstractOp("X", r, r, dt, tuple(getattr(cola, a) for a in ann))
+                    return (X,)
+
+                def call2(X, w1=w1, w2=w2):
+                    return O.Product(w1(X), w2(X))
+                cases.append(Case(f"Product(X.{n1},X.{n2})[both wrapped]/dtype={d};ann={ann}", "get_annotations(Product) when both factors are lazy transposes/adjoints of X", build2, call2, ens,
+                                  witness=dict(engine="ANN", pattern=f"{n1}{n2}:both", dtype=d, ann=list(ann))))
         for ann in ANNS[1:]:
             for cdt in (np.float64, np.complex128):
                 def build(dt=dt, ann=ann, cdt=cdt):
